@@ -105,6 +105,33 @@ def main():
                                                 {"traceback": traceback.format_exc()})])
     violations.extend(res.get("violations", []))
 
+    # 2b. change-directed search: the tree differs from the one whose fingerprints are recorded (tools/fingerprint.py).
+    #     That is no verdict; it only buys more search: further generator seeds until something fails.
+    directed = None
+    try:
+        sys.path.insert(0, os.path.join(VERIF, "tools"))
+        import fingerprint
+        changed = fingerprint.changed_files(common.REPO)
+    except Exception:
+        changed = None
+    if changed and os.environ.get("VERIF_NO_ESCALATION") != "1":
+        extra = [seed + k for k in ((1, 2, 3) if tier == "quick" else (1,))]
+        directed = {"changed_files": changed[:20], "extra_seeds_run": []}
+        listed = common.load_known_findings().get(pid, {})
+        for s in extra:
+            if any(v.key not in listed for v in violations):
+                break
+            try:
+                more = mod.run(tier, s)
+            except Exception:
+                more = dict(evaluations=0, violations=[common.Violation("harness-crash", "harness raised: " + traceback.format_exc()[-1500:],
+                                                                        {"traceback": traceback.format_exc(), "seed": s})])
+            directed["extra_seeds_run"].append(s)
+            violations.extend(more.get("violations", []))
+            for k in ("evaluations", "distinct_nontrivial", "traces_validated_against_impl"):
+                if k in res or k in more:
+                    res[k] = int(res.get(k, 0)) + int(more.get(k, 0))
+
     if not proof_ok and not violations:
         violations.append(common.Violation(
             "proof-broken",
@@ -162,6 +189,8 @@ def main():
     }
     for k, v in res.get("coverage", {}).items():
         cov[k] = v
+    if directed:
+        cov["change_directed_search"] = directed
     if thorough_info:
         cov["thorough"] = thorough_info
     if forbidden:
